@@ -15,7 +15,7 @@ CONFIG = dict(
 )
 
 MANIFEST = dict(
-    text="Lean 4 theorems about the model's queueing and resume code: every message handed to a session passes the same filter whether or not a connection is attached and is then written or appended to the queue in order (second chat-refresh notice merged); a resume on a fresh connection answers with the same session id, tells a previous connection `session_resumed`, flushes the whole queue in order without loss or duplicate, keeps the room, empties the queue and takes the session off the expiry list (C06_resume_off_expiry_list); ids that do not decode as private ids (the public id included) and ids of ended sessions are refused with no_such_session; bye ends the session (and by the C07 invariant it is then in no room). Differential hub run with disconnects at PRNG positions, queued messages, resume / takeover / public-id / garbage-id / bye / expiry; scripted openings interrupt and resume one session several times with traffic (incl. repeated chat-refresh notices) in every gap; the judge checks same session id, same room, takeover bye and refusals on the real trace. That a resumed session leaves the expiry list whatever connection it had before is a regenerated fact (C06_resume_clears_expiry).",
+    text="Lean 4 theorems about the model's queueing and resume code: every message handed to a session passes the same filter whether or not a connection is attached and is then written or appended to the queue in order (second chat-refresh notice merged); a resume on a fresh connection answers with the same session id, tells a previous connection `session_resumed`, flushes the whole queue in order without loss or duplicate, keeps the room, empties the queue and takes the session off the expiry list (C06_resume_off_expiry_list); ids that do not decode as private ids (the public id included) and ids of ended sessions are refused with no_such_session; bye ends the session (and by the C07 invariant it is then in no room). Differential hub run with disconnects at PRNG positions, queued messages, resume / takeover / public-id / garbage-id / bye / expiry; scripted openings interrupt and resume one session several times with traffic (incl. repeated chat-refresh notices) in every gap; the judge checks same session id, same room, takeover bye and refusals on the real trace, and that every client/room message queued while the session was away (chat-refresh notices merged into one per gap) is written to the resuming connection (message-lost-during-interruption). That a resumed session leaves the expiry list whatever connection it had before is a regenerated fact (C06_resume_clears_expiry).",
     note="Synchronous routing layer: single hub, loopback bus, quiescence between ops; no gRPC peers, MCU or federation. Trusted: Lean kernel, extractor, harness (real websockets, fake Nextcloud backend) and comparison. The global two-run statement (old connection's messages ++ flushed messages = what a connected session would have received) is not stated as one theorem (partial): it follows from the two local theorems. Bytes written to a socket that is dead but not yet detected, and concurrent senders during the flush, are not modelled. Expiry is driven through performHousekeeping(now) with all deadlines passed or none.",
     technique="Lean 4 proof (routing refinement over the hub model) + differential correspondence",
 )
